@@ -264,7 +264,7 @@ Proof.
 Qed.
 
 (* NumpyTensorSpace._lincomb at Q is the rational restriction of the same at R *)
-Theorem lincomb_impl_transfer (castq : Q -> Q) (castr : R -> R) (fl bdt : bool) (flags : list (bool * bool))
+Theorem lincomb_impl_transfer (castq : Q -> Q) (castr : R -> R) (fl : bool) (bdt : dtinfo) (flags : list (bool * bool))
         (size : Z) (a b : Q) (x1 x2 out : nat) (sq : store Q) (sr : store R) :
   (forall q, Q2R (castq q) = castr (Q2R q)) -> sim sq sr ->
   osim (lincomb_impl_sz castq fl bdt flags size a x1 b x2 out sq)
@@ -306,7 +306,7 @@ Scheme elem_mut_tr := Induction for elem Sort Prop
 
 Section SpaceTransfer.
 Variable flg : nat -> bool * bool.
-Variable bdtf : nat -> bool.
+Variable bdtf : nat -> dtinfo.
 Variables (icq : Q -> Q) (icr : R -> R).
 Hypothesis Hic : forall q, Q2R (icq q) = icr (Q2R q).
 
